@@ -389,6 +389,11 @@ func isInvariant(v ssa.Value, li *loopInfo) bool {
 // Constant interpretation of pure byte predicates (isIdent(0) etc.)
 
 func (m *Model) evalPure(fn *ssa.Function, args []constant.Value) (constant.Value, bool) {
+	return m.evalPureHook(fn, args, nil)
+}
+
+// evalPureHook: like evalPure; resolve supplies values for loads and calls the interpreter cannot compute itself.
+func (m *Model) evalPureHook(fn *ssa.Function, args []constant.Value, resolve func(ssa.Value) (constant.Value, bool)) (constant.Value, bool) {
 	if fn.Blocks == nil || len(fn.Params) != len(args) {
 		return nil, false
 	}
@@ -423,11 +428,32 @@ func (m *Model) evalPure(fn *ssa.Function, args []constant.Value) (constant.Valu
 				}
 				env[x] = v
 			case *ssa.UnOp:
+				if x.Op != token.NOT {
+					if resolve != nil {
+						if v, ok := resolve(x); ok {
+							env[x] = v
+							continue
+						}
+					}
+					if x.Op == token.MUL {
+						continue // an address computation / load that is not needed unless used
+					}
+					return nil, false
+				}
 				v, ok := m.constOf(x.X, env)
-				if !ok || x.Op != token.NOT {
+				if !ok {
 					return nil, false
 				}
 				env[x] = constant.MakeBool(!constant.BoolVal(v))
+			case *ssa.FieldAddr:
+			case *ssa.Call:
+				if resolve != nil {
+					if v, ok := resolve(x); ok {
+						env[x] = v
+						continue
+					}
+				}
+				return nil, false
 			case *ssa.Convert:
 				v, ok := m.constOf(x.X, env)
 				if !ok {
@@ -735,7 +761,7 @@ func (pc *progressCtx) lexerLoops() {
 				pc.s.OK(pc.rule, key+" progress", pos, "every pass through the loop calls readChar (directly or through a function that always does)")
 			}
 			// exit at end of input: l.char == 0
-			ok, wit := exitsInState(li, pc.lexEval(0))
+			ok, wit := exitsInState(li, pc.lexEvalAfter(0, li))
 			if ok {
 				pc.s.OK(pc.rule, key+" exits at end of input", pos, "with l.char == 0 every path from the header leaves the loop")
 			} else {
